@@ -1,4 +1,4 @@
-# finding 14 (STORE-4 view -> C14): known finding, not repaired
+# finding 14 (STORE-4 view -> C14): fixed 44c53f9
 # insert_block / insert_block_and_control_blocks copy the *filtered* view
 # block.jump_targets (declared back edges removed) and write it back as the
 # full _jump_targets: a predecessor with a declared back edge loses that arc,
